@@ -3,6 +3,7 @@ from __future__ import annotations
 import ast
 import collections
 import copy
+import functools
 import itertools
 import re
 import string
@@ -2655,6 +2656,28 @@ def _move_after_scope(
     return additions, removals
 
 
+def _is_order_sensitive(
+    test: ast.AST, has_namedexpr: bool, branches: Sequence[ast.AST]
+) -> bool:
+    """Check if it matters whether test is evaluated before or after the first of branches."""
+    if has_namedexpr:
+        return True
+
+    # The statement must not change anything that the test reads
+    test_names = {name.id for name in core.walk(test, ast.Name)}
+    written_names = {
+        name.id
+        for name in core.walk(branches[0], ast.Name)
+        if not isinstance(name.ctx, ast.Load)
+    }
+    written_names.update(
+        name.id
+        for node in core.walk(branches[0], (ast.Attribute, ast.Subscript, ast.Call))
+        for name in core.walk(node, ast.Name)
+    )
+    return bool(test_names & written_names)
+
+
 @processing.fix
 def breakout_common_code_in_ifs(source: str) -> str:
     root = core.parse(source)
@@ -2669,10 +2692,13 @@ def breakout_common_code_in_ifs(source: str) -> str:
         removals = set()
         additions = set()
         has_namedexpr = any(core.walk(node.test, ast.NamedExpr))
+        test_is_order_sensitive = functools.partial(
+            _is_order_sensitive, node.test, has_namedexpr
+        )
         start_branches = [body[0], orelse[0]]
         end_branches = [body[-1], orelse[-1]]
 
-        if not has_namedexpr and _is_same_code(*start_branches):
+        if not test_is_order_sensitive(start_branches) and _is_same_code(*start_branches):
             additions, removals = _move_before_scope(node, start_branches)
         elif _is_same_code(*end_branches):
             additions, removals = _move_after_scope(node, end_branches)
@@ -2683,7 +2709,7 @@ def breakout_common_code_in_ifs(source: str) -> str:
         except (ValueError, IndexError):
             pass
         else:
-            if not has_namedexpr and _is_same_code(*start_branches):
+            if not test_is_order_sensitive(start_branches) and _is_same_code(*start_branches):
                 additions, removals = _move_before_scope(node, start_branches)
             elif _is_same_code(*end_branches):
                 additions, removals = _move_after_scope(node, end_branches)
@@ -2715,8 +2741,11 @@ def breakout_common_code_in_ifs(source: str) -> str:
         removals = set()
         additions = set()
         has_namedexpr = any(core.walk(node.test, ast.NamedExpr))
+        test_is_order_sensitive = functools.partial(
+            _is_order_sensitive, node.test, has_namedexpr
+        )
         start_branches = [body[0], orelse[0]]
-        if not has_namedexpr and _is_same_code(*start_branches):
+        if not test_is_order_sensitive(start_branches) and _is_same_code(*start_branches):
             additions, removals = _move_before_scope(node, start_branches)
 
         try:
@@ -2724,7 +2753,7 @@ def breakout_common_code_in_ifs(source: str) -> str:
         except (ValueError, IndexError):
             pass
         else:
-            if not has_namedexpr and _is_same_code(*start_branches):
+            if not test_is_order_sensitive(start_branches) and _is_same_code(*start_branches):
                 additions, removals = _move_before_scope(node, start_branches)
 
         if core.match_template(list(additions), [ast.Pass]):
